@@ -1,8 +1,11 @@
 CONFIG = {
-    'subs': ['RecordIO'],
+    'subs': ['RecordIO', 'Split'],
     'props_modules': ['DmlcModel.Props.C02', 'DmlcModel.Props.C02Witness'],
     'driver': 'RecordIO',
-    'harness': {'name': 'recordio', 'srcs': ['harness/h_recordio.cc'], 'args': ['--prop', 'C02']},
+    'harness': {'name': 'recordio', 'srcs': ['harness/h_recordio.cc', '$REPO/src/io/recordio_split.cc', '$REPO/src/io/input_split_base.cc',
+                         '$REPO/src/io/filesys.cc', '$REPO/src/io/local_filesys.cc', '$REPO/src/io.cc',
+                         '$REPO/src/io/line_split.cc', '$REPO/src/io/indexed_recordio_split.cc'],
+                'flags': ['-DDMLC_CORE_VERIF_BUFFER_WORDS=4'], 'args': ['--prop', 'C02']},
     'rule': 'cases as C01 (record sequences over a magic-centred word alphabet, exhaustive for small bounds, random '
             'beyond) plus, per case, a scan from every aligned offset and every chunk-reader part k of n for '
             'n = 1..words+2 (capped at 14); non-trivial = at least one record written; distinct = hash of the op list',
